@@ -15,9 +15,20 @@ expected), revert; (4) write the outcome into seeded/<Cnn>/meta.json.
 """
 import sys, os, subprocess, json, shutil, time
 
-pid, wt = sys.argv[1], sys.argv[2].rstrip("/")
+pid, src = sys.argv[1], sys.argv[2].rstrip("/")
 checks = sys.argv[3:]
 dst = f"/verif/seeded/{pid}"
+# the change is confirmed and checked on a FRESH worktree of the current /repo HEAD
+# (the worktree the change was written in may be behind HEAD)
+wt = f"/tmp/seedrun-{pid}"
+subprocess.run(["bash", "-c", f"git -C /repo worktree remove --force {wt} 2>/dev/null; git -C /repo worktree prune; git -C /repo worktree add -q {wt} HEAD"], check=True)
+if os.path.isdir(f"{src}/seed_out"):
+    shutil.copytree(f"{src}/seed_out", f"{wt}/seed_out", dirs_exist_ok=True)
+    if os.path.isdir(f"{src}/seed_demo"):
+        shutil.copytree(f"{src}/seed_demo", f"{wt}/seed_demo", dirs_exist_ok=True)
+else:  # re-run from the stored copy
+    shutil.copytree(dst, f"{wt}/seed_out", dirs_exist_ok=True)
+    shutil.copytree(f"{dst}/demo", f"{wt}/seed_demo", dirs_exist_ok=True)
 env = dict(os.environ, GOFLAGS="-mod=mod", GOPROXY="off")
 
 def sh(cmd, cwd=None, extra=None, timeout=3600):
@@ -39,7 +50,7 @@ run_sh = open(f"{dst}/demo/run.sh").read().strip().splitlines()[-1]
 res = {"confirmed_at": time.strftime("%Y-%m-%dT%H:%M:%SZ", time.gmtime())}
 
 sh("git checkout -q -- . ; git stash list >/dev/null", cwd=wt)
-rc, out = sh(f"git apply --check {patch} && git apply {patch}", cwd=wt)
+rc, out = sh(f"git apply {patch} || git apply -3 {patch}", cwd=wt)
 if rc != 0:
     print("patch does not apply:", out); sys.exit(2)
 rc, out = sh("go build ./... && go test -vet=off -count=1 $(go list ./... | grep -v 'seed_demo\|seed_out')", cwd=wt)
@@ -79,6 +90,8 @@ sh("git checkout -q -- .", cwd=wt)
 rc, out = sh(run_sh, cwd=wt)
 res["demo_passes_without_change"] = rc == 0
 shutil.rmtree(ovdir, ignore_errors=True)
+subprocess.run(["bash", "-c", f"git -C /repo worktree remove --force {wt}; git -C /repo worktree prune"])
+res["repo_head"] = subprocess.run(["git", "-C", "/repo", "rev-parse", "--short", "HEAD"], capture_output=True, text=True).stdout.strip()
 meta["verif"] = res
 json.dump(meta, open(f"{dst}/meta.json", "w"), indent=1)
 print(json.dumps({k: v for k, v in res.items() if k != "checks"}))
